@@ -40,7 +40,7 @@ GEN_PREFIXES = []
 THEOREMS = {
     "Proofs.C12": ["VerifModel.C12." + t for t in [
         "C12_csv_shape", "C12_csv_lines", "C12_csv_cell", "C12_text_shape", "C12_text_lines",
-        "C12_fmtG_sound", "C12_fmtG_special", "C12_fmtG_chars", "C12_descs_partial",
+        "C12_fmtG_sound", "C12_fmtG_special", "C12_fmtG_chars", "C12_descs", "C12_descs_other",
         "C12_acc", "C12_acc_finite", "C12_threshold_avg", "C12_file_same"]],
     "Proofs.Lemmas.Decimal": ["VerifModel.Decimal." + t for t in [
         "ilog10_spec", "floorLog10_spec", "roundHalfEven_spec", "toDec_digits", "toDec_sound", "toDec_exp",
@@ -69,8 +69,6 @@ ASSUMPTIONS = [
     "score per legend entry.  Outside that domain (e.g. -leg 'c|d') only correspondence and oracle speak",
     "-acc in the property's form (NaN counts as 0): no infinite score (C12_acc_finite); C12_acc states what the code "
     "does for every input (+-inf becomes +-DBL_MAX) — known finding acc-inf",
-    "descriptor selection for threshold-like axes: text, or csv with -x threshold (C12_descs_partial); csv with -x "
-    "obs|fcst is the known finding csv-field-axis-*",
     "generated datasets: whole-day init times, obs identical across files for the same case, values exactly "
     "representable in float32",
 ]
@@ -317,9 +315,9 @@ def _table_from_capture(kind, cap):
             descs = cap["descs"]                      # what Data.get_axis_descriptions returned to the writer
         else:                                         # the writer's own threshold branch
             name = "Threshold"
-            if kind == "text" and pl.axis == verif.axis.Obs():
+            if pl.axis == verif.axis.Obs():
                 name = "Observed"
-            elif kind == "text" and pl.axis == verif.axis.Fcst():
+            elif pl.axis == verif.axis.Fcst():
                 name = "Forecasted"
             descs = {name: pl.thresholds}
     names = list(descs.keys())
@@ -962,9 +960,7 @@ def _judge_table(a, impl_out):
     sep = "," if kind == "csv" else "|"
     if not all(_clean(s, sep) and s == s.strip() and s != "" for s in legend):
         return None                                    # outside the domain of the round trip (e.g. -leg c|d)
-    # header (the property does not fix the spelling for obs/fcst: accept the axis name or the text writer's word)
-    if sig["xgroup"] == "field" and tab[0][:1] in (["Obs"], ["Fcst"]):
-        hdr = tab[0][:1]
+    # header
     if tab[0] != hdr + legend:
         return (dict(sig, kind="header"), "%s: header %s, expected descriptor names %s followed by one column per "
                 "input in command-line order %s" % (cl, tab[0], hdr, legend))
